@@ -31,7 +31,16 @@ RULE = ("structured round trips per message type from boundary tables (list size
         "through every decoder; random and mutated byte strings (truncations, bit flips, count-field edits); non-trivial = decoded successfully or a distinct "
         "error class; distinct = distinct canonical input text per unit")
 
-PARTIAL: t.List[str] = []
+PARTIAL: t.List[str] = [
+    "C12_rt_command / C12_rt_verification_trailer (bitmask1, pcontext, header2, unknown commands; trailer whose last command carries END): "
+    "no Coq round-trip lemma yet; covered by correspondence units rpc.roundtrip.command and rpc.roundtrip.vt only",
+    "C12_rt_ept_map (EptMap request message): no Coq round-trip lemma yet (its floor loop and entry handle are proved: C12_rt_floor, "
+    "C12_total_floors_partial); covered by correspondence unit rpc.roundtrip.eptmap only",
+    "C12_total_M: proved for the floor loop and EptMapResult.unpack (C12_total_floors_partial, C12_total_ept_map_result_partial); for PDU.unpack "
+    "(Bind/BindAck/BindNak loops), VerificationTrailer.unpack and EptMap.unpack termination/linear cost rest on rpc.arbitrary.* under the step budget",
+    "tick bounds are stated for successful decodes; on a raising path the theorem gives only fuel sufficiency (each loop <= length + 1 iterations)",
+    "pack is modelled on in-range field values only (OverflowError of int.to_bytes outside the wf_* ranges is not modelled)",
+]
 
 
 # ---------------------------------------------------------------------------------------------------
